@@ -100,9 +100,11 @@ impl Continuous for Gamma {
         if x <= 0. {
             return 0.;
         }
-        self.beta.powf(self.alpha) / gamma(self.alpha)
-            * x.powf(self.alpha - 1.)
-            * (-self.beta * x).exp()
+        // evaluated in the log domain: the separate factors x^(alpha - 1) and exp(-beta x) overflow /
+        // underflow far in the tail (inf * 0 = NaN) long before the density itself is negligible
+        (self.alpha * self.beta.ln() - gamma(self.alpha).ln() + (self.alpha - 1.) * x.ln()
+            - self.beta * x)
+            .exp()
     }
 }
 
